@@ -534,10 +534,10 @@ def resolve(prog, body, e, depth=0):
     return resolve(prog, parent, caps[i], depth + 1)
 
 
-def rr(prog, body, e):
+def rr(prog, body, e, ids=False):
     """Normalised rendering of e after resolving a top-level captured variable to its defining body."""
     b2, e2 = resolve(prog, body, e)
-    return Norm(b2).r(e2)
+    return Norm(b2, ids).r(e2)
 
 
 def const_dead_edges(body):
@@ -564,3 +564,76 @@ def passes_nodes(body, starts, target_bb, nodes):
     """Every feasible path from `starts` to target_bb passes a block in `nodes` (constant switches evaluated, hoisted bools tracked)."""
     r = body.reachable_bool(starts, blocked_nodes=set(nodes), blocked_edges=const_dead_edges(body))
     return target_bb not in r
+
+
+# --------------------------------------------------------------------------------------------------- one-level helper following
+def crate_callees(prog, body, bbs=None):
+    """[(site, callee Body)] for calls in `body` (optionally only in blocks bbs) to fns/methods of the same crate."""
+    out = []
+    pre = body.crate + "::"
+    for s in body.call_sites():
+        if bbs is not None and s.bb not in bbs:
+            continue
+        name = strip_generics(body.call_name(s.term))
+        if not name.startswith(pre):
+            continue
+        fb = [b for b in prog.find(body.crate, "^" + re.escape(name) + "$") if b.kind in ("fn", "method")]
+        if len(fb) == 1:
+            out.append((s, fb[0]))
+    return out
+
+
+def subst(txt, args):
+    """Rewrite a normalised text of a callee (`$k` = its k-th parameter) into the caller's terms."""
+    if txt is None:
+        return None
+
+    def rep(m):
+        i = int(m.group(1)) - 1
+        return args[i] if 0 <= i < len(args) else m.group(0)
+    return re.sub(r"\$(\d+)", rep, txt)
+
+
+def views(prog, body, bbs=None):
+    """The body itself plus, one level down, every crate-local helper it calls:
+    [(B, call site in `body` or None, [caller-side normalised argument texts])]."""
+    N = Norm(body)
+    out = [(body, None, None)]
+    for s, cb in crate_callees(prog, body, bbs):
+        args = [N.r(a) for a in body.site_expr(s)[2]]
+        if cb.argc >= 1 and cb.names.get(1) == "self":
+            pass
+        out.append((cb, s, args))
+    return out
+
+
+def to_caller(txt, body_is_method, args):
+    """Normalised text of a helper expressed with the caller's arguments (`self` -> receiver, `$k` -> k-th argument)."""
+    if args is None or txt is None:
+        return txt
+    t = subst(txt, args)
+    if body_is_method and args and args[0] != "self":
+        t = re.sub(r"\bself\b", args[0], t)
+    return t
+
+
+def private_callers_ok(prog, fn_body, allowed):
+    """A private helper inherits a permission when every caller of it is an allowed body (or a closure of one)."""
+    callers = prog.callers(fn_body.crate, "^" + re.escape(fn_body.npath) + "$")
+    if not callers:
+        return False
+    return all(any(s.body.npath == a or s.body.npath.startswith(a + "::{") for a in allowed) for s in callers)
+
+
+def fn_in_arm(prog, body, subject_test, variant, pick=None):
+    """The crate-local fn/method called in the arm `variant` of the match on the subject selected by subject_test
+    (unique, or the unique one accepted by pick(callee body))."""
+    ent = targets(variant_edges(body, subject_test, {variant}))
+    if len(ent) != 1:
+        raise mir.RuleError("%s: arm %s not found" % (body.short, variant))
+    cs = crate_callees(prog, body, body.reachable(ent))
+    cands = {cb.npath: cb for _, cb in cs if pick is None or pick(cb)}
+    # the arm region may run on into code shared by all arms: keep callees that are not reachable from the other arms
+    if len(cands) != 1:
+        raise mir.RuleError("%s: arm %s calls %s" % (body.short, variant, sorted(cands)))
+    return next(iter(cands.values()))
